@@ -1010,6 +1010,66 @@ func scanProvesNoNil(p *prover, el ssa.Value, at ssa.Instruction) (bool, string)
 			return true, "reached only when " + FuncName(f) + " (true exactly when some entry is nil) said no"
 		}
 	}
+	// ... or by a search helper's answer "not found": firstWhere(el, isNil) < 0, the helper handed the list and a
+	// predicate that is exactly "is nil"; every way the helper has of answering with a negative number has seen
+	// every element fail the predicate
+	for _, cf := range expandConds(dominatingConds(at.Block())) {
+		bo, ok := cf.Cond.(*ssa.BinOp)
+		if !ok {
+			continue
+		}
+		for _, side := range []ssa.Value{bo.X, bo.Y} {
+			call, isCall := side.(*ssa.Call)
+			if !isCall {
+				continue
+			}
+			h := call.Call.StaticCallee()
+			if h == nil || h.Blocks == nil || !inModule(h) || len(call.Call.Args) != len(h.Params) || len(h.Params) < 2 || h.Signature.Results().Len() != 1 || !isIntType(h.Signature.Results().At(0).Type()) {
+				continue
+			}
+			if p.canon(call.Call.Args[0]) != p.canon(el) {
+				continue
+			}
+			var facts []constraint
+			facts = append(facts, p.condConstraints(cf.Cond, cf.Val)...)
+			if !entails(facts, leq(p.linOf(call), linConst(-1), "")) {
+				continue
+			}
+			bound := map[*ssa.Parameter]*ssa.Function{}
+			for k, a := range call.Call.Args {
+				if f, isF := unwrap(a, false).(*ssa.Function); isF {
+					bound[h.Params[k]] = f
+				}
+			}
+			if len(bound) == 0 {
+				continue
+			}
+			for k, v := range bound {
+				scanFuncBindings[k] = v
+			}
+			ph := p.ix.proverFor(h)
+			all, n := true, 0
+			for _, rc := range returnCases(h) {
+				if lb, okL := ph.lowerBoundInt(rc.Vals[0], 0); okL && lb >= 0 {
+					continue // "found at i"
+				}
+				n++
+				hat := ssa.Instruction(rc.Ret)
+				if rc.Into != nil {
+					hat = rc.Via.Instrs[len(rc.Via.Instrs)-1]
+				}
+				if ok2, _ := scanEstablishesNoNil(ph, h.Params[0], hat); !ok2 {
+					all = false
+				}
+			}
+			for k := range bound {
+				delete(scanFuncBindings, k)
+			}
+			if all && n > 0 {
+				return true, "reached only when " + FuncName(h) + " found no entry for which the predicate 'is nil' holds, having tried every entry"
+			}
+		}
+	}
 	if ok, how := scanEstablishesNoNil(p, el, at); ok {
 		return true, how
 	} else if how != "" {
